@@ -7,7 +7,7 @@
    for ALL heaps, trees and addresses (no bounds). *)
 From Coq Require Import ZArith List Bool.
 From ADV Require Import C19.Model C19.ModelP C19.ModelW C19.ModelH C19.Spec C19.Proofs
-  C19.ProofsW1 C19.ProofsW2 C19.ProofsW4 C19.ProofsH1 C19.ProofsH2 C19.ProofsH3 C19.ProofsH4 C19.ProofsH5 C19.ProofsSafe.
+  C19.ProofsW1 C19.ProofsW2 C19.ProofsW4 C19.ProofsH1 C19.ProofsH2 C19.ProofsH3 C19.ProofsH4 C19.ProofsH5 C19.ProofsH6 C19.ProofsH7 C19.ProofsSafe.
 Import ListNotations.
 Open Scope Z_scope.
 
@@ -76,6 +76,46 @@ Theorem replace_statements_refine_pdel_step :
     sr s' = Some mi /\ sf s' = fl.
 Proof. exact replace_exec. Qed.
 
+(* balance1 / balance2 (the rebalancing step of the DELETE path: delete, deleteRec): on any
+   heap holding a tree t (addresses distinct) whose root has a Balance in -1..1 and, on its
+   heavy side, the child (and, when that child leans inwards, the inner grandchild) the code
+   dereferences, the statement list run on the root with the caller's flag fl (a) does not
+   panic, (b) leaves a heap holding exactly  fst (ModelP.pbalance1 t)  — incl. the single
+   rotation with a BALANCED child (height kept, balances -1 / +1 rewritten after rotateRR /
+   rotateLL) and the double rotation rotateRL / rotateLR whatever the pivot's balance and
+   children are —, (c) writes to no object outside t, and (d) returns  balanced = true  iff
+   pbalance1 says so or the caller passed true.  The rotation calls inside are the statement
+   lists of section 1 (run through SCall, not re-modelled). *)
+Theorem balance1_statements_refine_pbalance1 :
+  forall f fl h t, NoDup (pids t) -> rep h t -> bal1_shape t ->
+  exists s', run_method (7 + f) MBalance1 (ModelP.pid t) None fl h = Some s' /\
+    rep (sh s') (fst (pbalance1 t)) /\
+    (forall a, ~ In a (pids t) -> sh s' a = h a) /\ sf s' = (snd (pbalance1 t) || fl)%bool.
+Proof. exact balance1_exec. Qed.
+
+Theorem balance2_statements_refine_pbalance2 :
+  forall f fl h t, NoDup (pids t) -> rep h t -> bal2_shape t ->
+  exists s', run_method (7 + f) MBalance2 (ModelP.pid t) None fl h = Some s' /\
+    rep (sh s') (fst (pbalance2 t)) /\
+    (forall a, ~ In a (pids t) -> sh s' a = h a) /\ sf s' = (snd (pbalance2 t) || fl)%bool.
+Proof. exact balance2_exec. Qed.
+
+(* the shape hypothesis is what the code needs: Balance = 1 without a right child is a nil
+   dereference in balance1 (Go panics), whatever the fuel *)
+Theorem balance1_without_heavy_child_panics :
+  forall f fl h io l v p,
+  h io = live_cell l v 1 p PE -> run_method f MBalance1 (Some io) None fl h = None.
+Proof. exact balance1_no_child_panics. Qed.
+
+(* ... and the invariant of Props.v (1) discharges it at the call sites: delete / deleteRec call
+   balance1 (balance2) on a node whose subtrees are AVL and whose Balance field is still the
+   height difference from BEFORE the left (right) subtree lost one level *)
+Theorem balance_shapes_follow_from_the_avl_invariant :
+  forall id l v b p r, avl (erase l) -> avl (erase r) -> -1 <= b <= 1 ->
+  (b = height (erase r) - (height (erase l) + 1) -> bal1_shape (PN id l v b p r)) /\
+  (b = (height (erase r) + 1) - height (erase l) -> bal2_shape (PN id l v b p r)).
+Proof. intros id l v b p r Al Ar Hr. exact (conj (fun Hb => bal1_shape_of_avl id l v b p r Al Ar Hb Hr) (fun Hb => bal2_shape_of_avl id l v b p r Al Ar Hb Hr)). Qed.
+
 (* [rep] is the heap of ModelW: a heap holds t iff it agrees with every cell pcells lists *)
 Theorem rep_is_agreement_with_pcells :
   forall t h, rep h t <-> (forall a c, In (a, c) (pcells t) -> h a = c).
@@ -142,8 +182,7 @@ Example exh_rotations_run :
 Proof. vm_compute. repeat split; try reflexivity; discriminate. Qed.
 
 (* replace on the heap of exh_t: obj = root 0 (key 5), node = a fresh predecessor object 50
-   with stale pointers; balance1 / balance2 run (their proofs against pbalance1/2 are not done:
-   the statement lists are tied by the translator and exercised here) *)
+   with stale pointers; balance1 / balance2 run *)
 Example exh_replace_and_balance_run :
   let h := hof ((50%nat, {| cv := 4; cb := 1; cdel := false; cl := Some 9%nat; cr := None; cp := Some 1%nat |}) :: pcells exh_t) in
   (match run_method 6 MReplace (Some 0%nat) (Some 50%nat) false h with
@@ -158,6 +197,36 @@ Example exh_replace_and_balance_run :
    match run_method 8 MBalance2 (Some 0%nat) None false (hof (pcells t2)) with
    | Some s => Some (readback 12 (sh s) (Some 0%nat), sf s) | None => None end = Some (pbalance2 t2)).
 Proof. vm_compute. repeat split; reflexivity. Qed.
+
+(* balance2 reached from the delete path with a double rotation whose pivot is BALANCED and has
+   TWO children (the insert path never produces this): keys 50 20 60 10 30 70 25 35, then 70
+   is unlinked and 60 becomes a leaf (what delete(70) does below the root before it calls
+   balance2 on the root: Balance -1, left child 20 leans right, pivot 30 holds 25 and 35) *)
+Definition exb_t0 : ptree :=
+  fst (fold_left pstep [MIns 50; MIns 20; MIns 60; MIns 10; MIns 30; MIns 70; MIns 25; MIns 35] (PE, O)).
+Definition exb_t : ptree := match exb_t0 with
+  | PN i l v b p (PN i6 _ v6 _ p6 _) => PN i l v b p (PN i6 PE v6 0 p6 PE) | _ => PE end.
+Example exb_balance2_double_rotation_balanced_two_child_pivot :
+  (NoDup (pids exb_t) /\ rep (hof (pcells exb_t)) exb_t /\ bal2_shape exb_t) /\
+  (match exb_t with PN _ (PN _ _ _ bl _ (PN _ (PN _ _ _ _ _ _) _ b2 _ (PN _ _ _ _ _ _))) _ b _ _ => (b, bl, b2) | _ => (9, 9, 9) end) = (-1, 1, 0) /\
+  (match run_method 7 MBalance2 (ModelP.pid exb_t) None false (hof (pcells exb_t)) with
+   | Some s => Some (readback 12 (sh s) (ModelP.pid exb_t), sf s) | None => None end) = Some (pbalance2 exb_t) /\
+  fst (pbalance2 exb_t) = fst (pstep (exb_t0, 8%nat) (MDel 70)) /\
+  elements (erase (fst (pbalance2 exb_t))) = [10; 20; 25; 30; 35; 50; 60] /\
+  fst (pbalance2 exb_t) <> exb_t.
+Proof.
+  split; [split; [|split]|].
+  - vm_compute. repeat (constructor; [simpl; intuition discriminate|]). constructor.
+  - vm_compute. repeat split.
+  - vm_compute. right. right. split; [reflexivity|]. right. discriminate.
+  - vm_compute. repeat split; try reflexivity. discriminate.
+Qed.
+
+Example exb_invariant_hypotheses_hold :
+  match exb_t with
+  | PN _ l _ b _ r => avl (erase l) /\ avl (erase r) /\ -1 <= b <= 1 /\ b = (height (erase r) + 1) - height (erase l)
+  | PE => False end.
+Proof. vm_compute. repeat split; try reflexivity; intro X; discriminate X. Qed.
 
 (* Safe iterator: source {1,3,5,8}; SafeIteratorFrom(2) snapshots it; the source then loses
    3 and 5 and gains 4; the safe iterator still walks 3, 5, 8 *)
